@@ -342,6 +342,9 @@ pub fn run(_kind: &str, ctx: &Ctx, out: &mut dyn Write) {
         }
     };
     let model = PathBuf::from(format!("{}/ddnnife/tests/data/VP9_d4.nnf", repo()));
+    // the library itself (no stream machinery) answers every line on a fresh clone: the expected
+    // i-th output line, independent of the binary's own single-worker run
+    let lib_model = guarded(|| ddnnife::Ddnnf::from_file(&model, Some(42))).ok();
     let thorough = ctx.tier == "thorough";
     let cores = std::thread::available_parallelism().map(|n| n.get()).unwrap_or(4);
     let scratch = root().join(".cache").join("run").join("C14-logs");
@@ -412,6 +415,15 @@ pub fn run(_kind: &str, ctx: &Ctx, out: &mut dyn Write) {
                 writeln!(s, "input {} exit", n).unwrap();
                 for i in 0..c.junk_after_exit {
                     writeln!(s, "input {} count a {}", n + 1 + i, i + 1).unwrap();
+                }
+            }
+            if let Some(m) = &lib_model {
+                for (i, l) in lines.iter().enumerate() {
+                    let mut c = m.clone();
+                    match guarded(|| c.handle_stream_msg(l)) {
+                        Ok(a) => writeln!(s, "expect {} {}", i, a).unwrap(),
+                        Err(e) => writeln!(s, "expect {} PANIC {}", i, e).unwrap(),
+                    }
                 }
             }
             writeln!(s, "ref_status {}", rf.status).unwrap();
